@@ -10,6 +10,7 @@ import AfkakProofs.Group.ProgressDrain
 import AfkakProofs.Group.FairReach
 import AfkakProofs.Group.NoCrashStep
 import AfkakProofs.Group.F12Exact
+import AfkakProofs.Group.FairSettled
 import AfkakProps.Open.C17
 /-!
 # C17 — a started group member always progresses toward stable membership
@@ -207,15 +208,43 @@ theorem C17_rejoins_bounded_no_escape (cfg : Cfg) (evs : List Ev) (hne : f12Occu
   obtain ⟨tail, a, b, _, d⟩ := progress_drain_final cfg evs hb h2 h3 h4
   exact ⟨tail, a, b, by unfold final at d; rwa [finalFrom_append] at d⟩
 
-/-- Bounded rejoin as a ∀-statement under fairness.  Take ANY history in which no non-Kafka error
-    was processed at an escape site by a member that was not stopping (`f12Occurs`, finding F12) and after which the member is started, not stopping and no
-    `stop()` waits for consumers — including one in the middle of `on_join_prepare`.  Then for EVERY
-    failure-free continuation (`okEvF`: time passes, timers fire, requests are answered successfully,
-    shutdowns complete, heartbeats are acknowledged — in any order, with any reply contents,
-    interleaved with any number of events that are not enabled) in which the environment makes at
-    least `μ` OWED moves (`owedMove`: the reply to the outstanding request, the completion of an
-    awaited shutdown, the firing of the due rejoin / retry timer of a member with no join in flight),
-    the member is a stable member at the end; and `μ ≤ 7 + #consumers`. -/
+/-- **Bounded rejoin as a ∀-statement under fairness.**  Take ANY history without the known finding's
+    situation (`f12Occurs`, finding F12) after which the member is started, not stopping and no `stop()`
+    waits for consumers — waiting on its rejoin timer, looking the coordinator up, loading metadata, in the
+    middle of `on_join_prepare`, joining or syncing.  Then EVERY failure-free continuation (`okEvF`: time
+    passes, timers fire, requests are answered successfully, shutdowns complete, heartbeats are acknowledged —
+    in any order, with any reply contents, the member leader or follower, interleaved with any number of
+    events that are not enabled) that goes on until the environment owes the member nothing (`settled`: no
+    request of the join coroutine outstanding, no shutdown awaited, no rejoin / coordinator-retry timer
+    pending) ends with a STABLE member: synced, its consumers started for exactly the assignment of that
+    sync reply (`C16_starts_committed`), heartbeat timer running (`C17_stable_heartbeat`).  `settled` implies
+    that no event is an owed move (`settled_nothing_owed`), and while the member is not stable something IS
+    owed (`C17_owes`).  How many moves that takes: `C17_rejoins_bounded_no_escape` (at most `6 + #consumers`). -/
+theorem C17_rejoins_fair_settled (cfg : Cfg) (evs : List Ev) (hne : f12Occurs cfg evs = false)
+    (h2 : (final cfg evs).started = true) (h3 : (final cfg evs).stopping = false) (h4 : (final cfg evs).stopDraining = false)
+    (tail : List Ev) (ha : tail.all okEvF = true) (hs : settled (finalFrom cfg (final cfg evs) tail) = true) :
+    (finalFrom cfg (final cfg evs) tail).rejoinNeeded = false :=
+  fair_settles cfg _ (elig_final cfg evs (final_busy_exact cfg evs hne) h2 h3 h4) tail ha hs
+
+/-- … and while such a member is not stable, the environment owes it something: a successful reply /
+    shutdown completion that is an enabled owed move (`owedMove`), or a rejoin / coordinator-retry timer is
+    pending (its firing is owed once it is due) — at the end of the history and after every failure-free
+    continuation of it. -/
+theorem C17_owes (cfg : Cfg) (evs : List Ev) (hne : f12Occurs cfg evs = false)
+    (h2 : (final cfg evs).started = true) (h3 : (final cfg evs).stopping = false) (h4 : (final cfg evs).stopDraining = false)
+    (tail : List Ev) (ha : tail.all okEvF = true) (hn : (finalFrom cfg (final cfg evs) tail).rejoinNeeded = true) :
+    (∃ e, okEvF e = true ∧ owedMove (finalFrom cfg (final cfg evs) tail) e = true) ∨
+    ((finalFrom cfg (final cfg evs) tail).jpc = .idle ∧ ∃ t ∈ (finalFrom cfg (final cfg evs) tail).timers, t.kind ≠ .hb) :=
+  owes (elig_tail cfg tail _ (elig_final cfg evs (final_busy_exact cfg evs hne) h2 h3 h4) ha) hn
+
+/-- The COUNTING form of the fairness statement (kept; the statement that carries the meaning is
+    `C17_rejoins_fair_settled` above).  For every failure-free continuation in which the environment makes at
+    least `μ` owed moves the member is stable at the end, `μ ≤ 7 + #consumers`.  CAVEAT (independent audit,
+    round 2): `μ` drops by more than one on some mandatory transitions (metadata reply → `on_join_prepare` /
+    JoinGroup; a follower's join reply → SyncGroup), so the hypothesis `μ ≤ #owed moves` is satisfiable only
+    from mid-exchange states and with a leader's replies (e.g. `exDrain` with `exFairTail` below); from a
+    member that is idle, looking the coordinator up or loading metadata, and for every follower, it is
+    vacuous. -/
 theorem C17_rejoins_fair (cfg : Cfg) (evs : List Ev) (hne : f12Occurs cfg evs = false)
     (h2 : (final cfg evs).started = true) (h3 : (final cfg evs).stopping = false) (h4 : (final cfg evs).stopDraining = false)
     (tail : List Ev) (ha : tail.all okEvF = true) (hf : mu (final cfg evs) ≤ owedCount cfg (final cfg evs) tail) :
@@ -276,6 +305,25 @@ example : exFairTail.all okEvF = true ∧ mu (final exCfg exDrain) = 5 ∧
     (final exCfg (exDrain ++ exFairTail)).rejoinNeeded = false := by decide +kernel
 example : eligible exCfg (exFaults ++ [.advance 1, .fire 2 none, .coordDone .ok]) = true := by decide +kernel
 
+/-! Non-vacuity of `C17_rejoins_fair_settled` from the states the property is about: a fresh member that
+is looking the coordinator up and becomes a FOLLOWER; the member of `exFaults` waiting on its rejoin timer
+(idle), with an event that is not enabled in between, as a leader; and the mid-drain state `exDrain` with a
+follower reply. -/
+example : (final exCfg [.start]).jpc = .coordLookup ∧
+    ([.coordDone .ok, .metaDone .ok, .joinDone (.ok 1 1 false 0), .syncDone (.ok [(0, [0])])] : List Ev).all okEvF = true ∧
+    settled (finalFrom exCfg (final exCfg [.start]) [.coordDone .ok, .metaDone .ok, .joinDone (.ok 1 1 false 0), .syncDone (.ok [(0, [0])])]) = true := by
+  decide +kernel
+example : (final exCfg exFaults).jpc = .idle ∧
+    ([.advance 1, .syncDone (.ok []), .fire 2 none, .coordDone .ok, .metaDone .ok, .joinDone (.ok 1 3 true 2), .partsDone .ok, .syncDone (.ok [(0, [1])])] : List Ev).all okEvF = true ∧
+    settled (finalFrom exCfg (final exCfg exFaults)
+      [.advance 1, .syncDone (.ok []), .fire 2 none, .coordDone .ok, .metaDone .ok, .joinDone (.ok 1 3 true 2), .partsDone .ok, .syncDone (.ok [(0, [1])])]) = true := by
+  decide +kernel
+example : settled (finalFrom exCfg (final exCfg exDrain) [.consumerDown 0 true, .consumerDown 1 true, .joinDone (.ok 1 2 false 1), .syncDone (.ok [(0, [1])])]) = true := by
+  decide +kernel
+/-- not settled while the rejoin timer is pending, although no owed move is enabled yet -/
+example : settled (final exCfg exFaults) = false := by decide +kernel
+
+
 end Afkak.Props.C17
 
 /- OBLIGATIONS
@@ -297,6 +345,8 @@ C17_no_internal_error
 C17_rejoins_bounded_partial
 C17_rejoins_bounded_no_escape
 C17_rejoins_fair
+C17_rejoins_fair_settled
+C17_owes
 C17_rejoins_bounded_counterexample
 C17_join_progress
 -/
